@@ -41,6 +41,9 @@ func alphabet(c config) []letter {
 		{"RCR-rej", event{K: kRCR, ID: 0x23, Opts: []optSpec{rej, ok}}},
 		{"RCR-bad", event{K: kRCR, ID: 0x24, Opts: []optSpec{ok}, Tail: tailShortLen}},
 		{"RCA", rcaM}, {"RCA-stale", event{K: kRCA, IDMode: idStale, EchoOurs: true}},
+		// the identifier of the most recent packet we sent that is not a Configure-Request (Terminate-Request, Code-Reject,
+		// Protocol-Reject, Echo-Request or one of our replies); an earlier request's if there is none
+		{"RCA-other", event{K: kRCA, IDMode: idOther, EchoOurs: true}},
 		{"RCN", event{K: kRCN, IDMode: idMatch, Opts: []optSpec{ok}}}, {"RCN-stale", event{K: kRCN, IDMode: idStale, Opts: []optSpec{ok}}},
 		{"RCJ", event{K: kRCJ, IDMode: idMatch, Opts: []optSpec{ok}}}, {"RCJ-stale", event{K: kRCJ, IDMode: idStale, Opts: []optSpec{ok}}},
 		{"RTR", event{K: kRTR, ID: 0x31}}, {"RTA", event{K: kRTA, ID: 0x32}},
@@ -55,7 +58,9 @@ func alphabet(c config) []letter {
 		l = append(l,
 			letter{"XJ+", event{K: kXJ, ID: 0x36, Data: []byte{12, 1, 0, 4}}},
 			letter{"PJ-other", event{K: kPJ, ID: 0x37, Data: []byte{0x80, 0x57, 1, 1, 0, 4}}},
-			letter{"Unknown", event{K: kOther, Code: 200, ID: 0x38}})
+			letter{"Unknown", event{K: kOther, Code: 12, ID: 0x38, Data: []byte{0, 0, 0, 9, 'x'}}}, // RFC 1570 Identification -> Code-Reject
+			letter{"SendEcho", event{K: kSendEcho}},
+			letter{"SendPJ", event{K: kSendPJ, Proto: 0x80fd, Data: []byte{1, 1, 0, 4}}})
 	}
 	if vstat.Thorough() {
 		rta, rtr, dn := event{K: kRTA, ID: 0x32}, event{K: kRTR, ID: 0x31}, event{K: kDown}
@@ -67,6 +72,9 @@ func alphabet(c config) []letter {
 			letter{"RCR-shorthdr", event{K: kRCR, ID: 0x29, Opts: []optSpec{ok}, Hdr: hdrShort}},
 			letter{"RCA-otheropts", event{K: kRCA, IDMode: idMatch, Opts: []optSpec{rej}}},
 			letter{"XJ-empty", event{K: kXJ, ID: 0x39}},
+			letter{"RCN-other", event{K: kRCN, IDMode: idOther, Opts: []optSpec{ok}}},
+			letter{"RCJ-other", event{K: kRCJ, IDMode: idOther, Opts: []optSpec{ok}}},
+			letter{"RTA-other", event{K: kRTA, IDFrom: fromOther}},
 			letter{"Late[RTA]", event{K: kLate, Inner: &rta}},
 			letter{"Late[RTR]", event{K: kLate, Inner: &rtr}},
 			letter{"Late[RCN]", event{K: kLate, Inner: &rcn}},
